@@ -507,7 +507,7 @@ def main_check(check, tier=None):
     if prefer:
         new_classes.sort(key=lambda c: (prefer not in c, c))
     nviol = 0
-    shrink_budget = defaults.get("shrink_s", 40.0)
+    shrink_budget = float(os.environ.get("VERIF_SHRINK_S", "0") or 0) or defaults.get("shrink_s", 40.0)
     for cls in new_classes[:3]:
         recs = by_class[cls]
         # smallest trace first
